@@ -27,6 +27,7 @@ import (
 	"math/bits"
 	"math/rand"
 	"os"
+	"runtime"
 	"runtime/debug"
 	"strconv"
 	"sync"
@@ -229,14 +230,15 @@ func runDV(rng *rand.Rand) (viols []viol, st runStats) {
 		Kind      string
 		Src, Src2 int
 		Call, Ret uint64
+		Det       bool // attached from inside a writer's callback (deterministic overlap), not by the racing attacher
 		get       func() int
 		want      func() int
 	}
 	var amu sync.Mutex
 	var atts []*attached
 	var zeroWrites [4][]span // tick intervals of writes of the zero value, per input
-	attach := func(kind, j, j2 int) {
-		a := &attached{Src: j, Src2: j2}
+	attach := func(kind, j, j2 int, det bool) {
+		a := &attached{Src: j, Src2: j2, Det: det}
 		a.Call = tick()
 		switch kind {
 		case 0:
@@ -268,8 +270,30 @@ func runDV(rng *rand.Rand) (viols []viol, st runStats) {
 	}
 	// every round ends in a quiescent point (all writers joined) at which the oracle is evaluated; round -1 is the
 	// state right after construction (initial-value paths: inputs / sources that were already set)
+	// Deterministic overlap (independent of the parallelism the machine offers): a subscriber of each input performs a
+	// planned attach from inside the callback of a write of the zero value, i.e. while that writer is between its value
+	// update and its return. The racing attacher goroutine below stays on top of this.
+	var armed [4]atomic.Int32 // 0: not armed, else 1 + kind
+	var armedJ2 [4]int
+	for i := 0; i < n; i++ {
+		i := i
+		in[i].OnUpdate(func(_, nv int) {
+			if nv == 0 {
+				if k := armed[i].Swap(0); k != 0 {
+					attach(int(k-1), i, armedJ2[i], true)
+				}
+			}
+		})
+	}
 	for r := -1; r < rounds; r++ {
 		g := newGroup()
+		armedInput := -1
+		if r >= 0 && rng.Intn(3) == 0 {
+			armedInput = rng.Intn(n)
+			armedJ2[armedInput] = rng.Intn(n)
+			armed[armedInput].Store(int32(1 + rng.Intn(4)))
+			st.structural++
+		}
 		for i := 0; i < n && r >= 0; i++ {
 			for w := 0; w < wPer; w++ {
 				plan := make([]step, 1+rng.Intn(3))
@@ -278,6 +302,9 @@ func runDV(rng *rand.Rand) (viols []viol, st runStats) {
 					if rng.Intn(5) < 2 {
 						plan[k] = step{0, 0, rng.Intn(3)} // the zero value as a written value (X -> 0 -> X ...)
 					}
+				}
+				if i == armedInput && w == 0 {
+					plan = append(plan, step{0, 1 + rng.Intn(999), 0}, step{0, 0, 0}) // X, then back to the zero value
 				}
 				st.ops += len(plan)
 				v := in[i]
@@ -323,7 +350,7 @@ func runDV(rng *rand.Rand) (viols []viol, st runStats) {
 			g.spawn("attacher", func() {
 				for _, p := range plan {
 					yield(p.y)
-					attach(p.kind, p.j, p.j2)
+					attach(p.kind, p.j, p.j2, false)
 					progress.Add(1)
 				}
 			})
@@ -339,6 +366,11 @@ func runDV(rng *rand.Rand) (viols []viol, st runStats) {
 				for _, z := range zeroWrites[j] {
 					if a.Ret != 0 && z.a < a.Ret && a.Call < z.b {
 						st.add("attaches_overlapping_zero_write", 1)
+						if a.Det {
+							st.add("attaches_inside_zero_write_callback", 1)
+						} else {
+							st.add("attaches_racing_zero_write", 1)
+						}
 						a.Ret = 0 // counted once
 					}
 				}
@@ -349,6 +381,7 @@ func runDV(rng *rand.Rand) (viols []viol, st runStats) {
 		}
 		for i := range zeroWrites {
 			zeroWrites[i] = zeroWrites[i][:0]
+			armed[i].Store(0)
 		}
 		vals := make([]int, n)
 		for i := range vals {
@@ -1574,12 +1607,14 @@ func run(c *vf.Ctx) {
 		}
 	}
 	vf.Parallel(len(jobs), 6, func(i int) { runJob(c, jobs[i], time.Duration(c.Pick(4, 15))*time.Minute) })
+	par := min(runtime.NumCPU(), 4) // respects the affinity mask (taskset); overlap-dependent minimums scale with it
+	c.Extra("parallelism_available", runtime.NumCPU())
 	c.Assume("the Go race detector and runtime dead-lock detector are sound; inputs are read with Get()/ToSlice() only after every writer goroutine has been joined")
 	c.Require("evaluations", total*8/10)
 	for _, s := range scenarios {
 		if s.name != "ss-dl" { // may be cut short by its own dead-lock finding
 			c.Require("runs:"+s.name, total*s.share/100*8/10)
-			c.Require("nontrivial:"+s.name, total*s.share/100/4)
+			c.Require("nontrivial:"+s.name, max(10, total*s.share/100/4*par/4))
 		}
 	}
 	c.Require("runs:ss-dl", 1)
@@ -1592,7 +1627,11 @@ func run(c *vf.Ctx) {
 	c.Require("dv_inputs_nonzero_at_creation", total/50)
 	c.Require("dset_sources_nonempty_at_attach", total/50)
 	c.Require("ss_weights_nonzero_at_add", total/50)
-	c.Require("attaches_overlapping_zero_write", total/100)
+	// deterministic base (attach from inside the callback of a zero write) + racing overlaps; the racing minimum
+	// scales with the parallelism that is actually available and never drops below a floor that still proves the
+	// window was entered through pre-emption / Gosched jitter
+	c.Require("attaches_inside_zero_write_callback", total/100)
+	c.Require("attaches_racing_zero_write", max(total/2000, total/100*par/4))
 }
 
 func main() { vf.Main("C14", "exploration", run, child) }
